@@ -74,7 +74,7 @@ func MakeCert(spec CertSpec, issuer *Cert) *Cert {
 	key := DeriveKey(spec.KeyLabel)
 	ck := fmt.Sprintf("%s|%s|%x|%d|%d|%v|%v|%d|%v|%x", spec.CN, spec.KeyLabel, spec.Serial, spec.NotBefore.Unix(), spec.NotAfter.Unix(), spec.CA, spec.CRLDP, len(spec.ExtraExt), spec.NoSKI, append(append([]byte{}, spec.SKI...), spec.RawSubject...))
 	for _, e := range spec.ExtraExt {
-		ck += fmt.Sprintf("|%x", sha256.Sum256(e.Value))
+		ck += fmt.Sprintf("|%x%v", sha256.Sum256(e.Value), e.Critical)
 	}
 	if issuer != nil {
 		ck += fmt.Sprintf("|iss:%x", sha256.Sum256(issuer.DER))
@@ -243,13 +243,14 @@ func PckCrlURL(ca string) string {
 
 // LeafSpec parametrises a PCK leaf.
 type LeafSpec struct {
-	KeyLabel string
-	Serial   []byte
-	W        Window
-	SgxDER   []byte // encoded SGX extension value; nil = none
-	CN       string
-	CA       bool
-	CRLDP    []string
+	KeyLabel    string
+	Serial      []byte
+	W           Window
+	SgxDER      []byte // encoded SGX extension value; nil = none
+	SgxCritical bool   // mark the SGX extension critical (Intel does not)
+	CN          string
+	CA          bool
+	CRLDP       []string
 }
 
 // MakeLeaf issues a PCK leaf from issuer.
@@ -265,7 +266,9 @@ func MakeLeaf(issuer *Cert, ls LeafSpec) *Cert {
 	}
 	var ext []pkix.Extension
 	if ls.SgxDER != nil {
-		ext = []pkix.Extension{SgxExtension(ls.SgxDER)}
+		e := SgxExtension(ls.SgxDER)
+		e.Critical = ls.SgxCritical
+		ext = []pkix.Extension{e}
 	}
 	return MakeCert(CertSpec{CN: cn, KeyLabel: ls.KeyLabel, Serial: serialOr(ls.Serial, ls.KeyLabel), NotBefore: w.NotBefore, NotAfter: w.NotAfter, CA: ls.CA, CRLDP: dp, ExtraExt: ext}, issuer)
 }
@@ -281,7 +284,8 @@ func ChainPEM(cs ...*Cert) []byte {
 
 // CRLSpec parametrises a revocation list.
 type CRLSpec struct {
-	Revoked    [][]byte // serial numbers (big-endian)
+	Revoked    [][]byte    // serial numbers (big-endian)
+	RevokedAt  []time.Time // per-entry revocation time (missing / zero = ThisUpdate); the date of an entry is informational
 	ThisUpdate time.Time
 	NextUpdate time.Time
 	Number     int64
@@ -297,8 +301,12 @@ func MakeCRL(issuer *Cert, key *Key, cs CRLSpec) []byte {
 		nu = Wide.NotAfter
 	}
 	var entries []x509.RevocationListEntry
-	for _, s := range cs.Revoked {
-		entries = append(entries, x509.RevocationListEntry{SerialNumber: new(big.Int).SetBytes(s), RevocationTime: tu})
+	for i, s := range cs.Revoked {
+		at := tu
+		if i < len(cs.RevokedAt) && !cs.RevokedAt[i].IsZero() {
+			at = cs.RevokedAt[i]
+		}
+		entries = append(entries, x509.RevocationListEntry{SerialNumber: new(big.Int).SetBytes(s), RevocationTime: at})
 	}
 	tmpl := &x509.RevocationList{
 		SignatureAlgorithm:        x509.ECDSAWithSHA256,
